@@ -6,14 +6,14 @@ _CORPUS = ("hand-written corpus of small Hydro flows (hv_det_flows) compiled by 
 
 reg("C28", [mon("hydro", "hv_det_emb")],
     technique="runtime monitor: " + _CORPUS + "; metamorphic oracle over all tick partitions plus plain-Rust reference",
-    text="85 flows using only safe top-level APIs (map/filter/flat_map/filter_map/inspect/partition/chain/"
+    text="87 flows using only safe top-level APIs (map/filter/flat_map/filter_map/inspect/partition/chain/"
          "merge_unordered/cross_product/join (symmetric and half)/anti_join/unique/enumerate/scan/limit/fold/"
          "reduce/count/max/min/first/last/collect_vec/cross_singleton/threshold, keyed fold/reduce/first/"
          "value_counts/enumerate/scan/limit/get/unique/entries/values/keys, keyed-singleton get_max_key/"
-         "key_count/into_singleton, singleton/optional map/filter/or/unwrap_or). For every flow 60 (quick) / "
-         "1200 (thorough) random inputs of <= 6 items in total are run under EVERY partition of the inputs into "
+         "key_count/into_singleton, singleton/optional map/filter/or/unwrap_or). For every flow 500 (quick) / "
+         "5000 (thorough) random inputs of <= 6 items in total are run under EVERY partition of the inputs into "
          "ticks (all sequences of per-input chunk-size vectors; <= 2000 per input, every 5th with empty ticks "
-         "inserted) and 30-item inputs under 30/100 random partitions; the final observable (sequence for "
+         "inserted) and 60/500 30-item inputs under 40/100 random partitions each; the final observable (sequence for "
          "TotalOrder, multiset for NoOrder, last per-tick sample for singletons/optionals, final map for keyed "
          "singletons) must equal the one-tick run, which must equal a plain-Rust reference.",
     note="Observers (assume_ordering / snapshot+all_ticks wrappers) are trusted and outside the judged program. "
@@ -25,10 +25,10 @@ reg("C28", [mon("hydro", "hv_det_emb")],
 
 reg("C29", [mon("hydro", "hv_det_emb")],
     technique="runtime monitor: " + _CORPUS + "; plain-Rust iterator reference for output order, cross-key interleaving and key-deletion metamorphic checks",
-    text="26 flows typed TotalOrder or keyed (stateless maps, enumerate, scan, limit, unique, chain, join-half, "
+    text="28 flows typed TotalOrder or keyed (stateless maps, enumerate, scan, limit, unique, chain, join-half, "
          "anti_join, cross_singleton, threshold; keyed map/filter/flat_map/enumerate/scan/limit/get/"
-         "filter_key_not_in): under every tick partition of random inputs (<= 6 items) and random partitions of "
-         "30-item inputs the emitted sequence (per key for keyed streams, observed through "
+         "filter_key_not_in): under every tick partition of 600/6000 random inputs (<= 6 items) and random partitions of "
+         "60/500 30-item inputs the emitted sequence (per key for keyed streams, observed through "
          "entries_partially_ordered) equals a reference computed with Rust iterators; for keyed flows every "
          "interleaving of different keys that keeps per-key order (<= 90 per input) x every partition leaves all "
          "per-key sequences unchanged, and deleting all other keys leaves a key's sequence unchanged.",
@@ -55,8 +55,8 @@ reg("C33", [mon("hydro", "hv_det_emb")],
     text="11 flows producing Monotonic singletons (count, fold with a monotone proof), a Bounded top-level "
          "singleton, MonotonicValue (value_counts, keyed fold with a monotone proof), MonotonicKeys (keyed "
          "fold/reduce, map over MonotonicValue) and BoundedValue (per-key first, fold_early_stop; sampled through "
-         "into_singleton and through entries()) keyed singletons are snapshotted every tick under 4 000 (quick) / "
-         "80 000 (thorough) random inputs (1-30 items, 2-5 keys) and random tick partitions with empty ticks; "
+         "into_singleton and through entries()) keyed singletons are snapshotted every tick under 40 000 (quick) / "
+         "400 000 (thorough) random inputs (1-30 items, 2-5 keys) and random tick partitions with empty ticks; "
          "demanded: keys never disappear, monotone values never decrease, bounded values never change, a "
          "bounded entry is emitted once - exactly what each type marker promises - and the final sample equals "
          "the reference.",
